@@ -138,7 +138,8 @@ def check_vectors(ctx, exe, vecs, origin):
         plan += [("equiv", r["equivRelabelled"]), ("equiv", r["equivRelabelled"]), ("equiv", r["equivAltered"]),
                  ("equiv", r["equivAltered"]), ("bs_single", None), ("bs_break", None), ("bs_single", None),
                  ("bs_graph", None)]
-        if "at2" in r:
+        extras = r["n"] != 6 or r["salt"] == 0
+        if "at2" in r and extras:
             # the same structure with non-dyadic masses: original order, relabelled + two other insertion orders
             for slot, (a, b, c) in ((4, (vs, r["at2"], es)), (5, (r["rvs"], r["rat2"], r["res"])),
                                     (6, (r["rvs3"], r["rat3"], list(reversed(r["res"]))))):
@@ -147,7 +148,7 @@ def check_vectors(ctx, exe, vecs, origin):
                 plan += [("ok", None)] * len(bc)
             cmds += ["bs_equiv 4 5", "bs_equiv 5 4", "bs_equiv 4 6", "bs_equiv 6 5"]
             plan += [("equiv2", r["equivRelabelled"])] * 4
-        if "mes" in r and (r["nloops"] or r["ndups"]):
+        if "mes" in r and extras and (r["nloops"] or r["ndups"]):
             cmds += [_gcmd(vs, at, r["mes"]), "decouple", "sid"]
             plan += [("g", None), ("mdecouple", None), ("sid", 2)]
             for row in r["dist"][:2]:
@@ -790,9 +791,10 @@ def _run_items(exe, items):
     return results, crashes
 
 
-def _run_parallel(exe, items, nproc=4):
+def _run_parallel(exe, items, nproc=None):
     """_run_items over slices in parallel (the driver is single threaded and items are independent)"""
     import concurrent.futures
+    nproc = nproc or vlib.NCPU
     if len(items) < 200 or nproc <= 1:
         return _run_items(exe, items)
     step = (len(items) + nproc - 1) // nproc
